@@ -105,19 +105,36 @@ pub(crate) async fn connect(d: &Daemon, from: IpAddr, role: crate::fsm::Role) ->
         IpAddr::V4(_) => IpAddr::V4(Ipv4Addr::new(127, 0, 0, 1)),
         IpAddr::V6(_) => IpAddr::V6(std::net::Ipv6Addr::LOCALHOST),
     };
-    let listener = tokio::net::TcpListener::bind(SocketAddr::new(bind_ip, 0)).await.map_err(|e| format!("bind listener: {e}"))?;
-    let laddr = listener.local_addr().map_err(|e| e.to_string())?;
-    let sock = match from {
-        IpAddr::V4(_) => tokio::net::TcpSocket::new_v4(),
-        IpAddr::V6(_) => tokio::net::TcpSocket::new_v6(),
-    }
-    .map_err(|e| e.to_string())?;
-    // thousands of short sessions from one source address: do not let TIME_WAIT eat the port range
-    let _ = sock.set_reuseaddr(true);
-    sock.bind(SocketAddr::new(from, 0)).map_err(|e| format!("bind client {from}: {e}"))?;
-    let (client, server) = tokio::join!(sock.connect(laddr), listener.accept());
-    let client = client.map_err(|e| format!("connect: {e}"))?;
-    let (server, _) = server.map_err(|e| format!("accept: {e}"))?;
+    // With SO_REUSEADDR and tens of thousands of short sessions (several explorations may run on
+    // one machine) a fresh (listener port, client port) pair can coincide with a 4-tuple that is
+    // still in TIME_WAIT on the accepting side: connect() then fails with EADDRINUSE.  That is a
+    // property of the harness sockets, not of the daemon: take other ports and try again.
+    let mut attempt = 0;
+    let (client, server) = loop {
+        attempt += 1;
+        let listener = tokio::net::TcpListener::bind(SocketAddr::new(bind_ip, 0)).await.map_err(|e| format!("bind listener: {e}"))?;
+        let laddr = listener.local_addr().map_err(|e| e.to_string())?;
+        let sock = match from {
+            IpAddr::V4(_) => tokio::net::TcpSocket::new_v4(),
+            IpAddr::V6(_) => tokio::net::TcpSocket::new_v6(),
+        }
+        .map_err(|e| e.to_string())?;
+        // thousands of short sessions from one source address: do not let TIME_WAIT eat the port range
+        let _ = sock.set_reuseaddr(true);
+        match sock.bind(SocketAddr::new(from, 0)) {
+            Ok(()) => {}
+            Err(e) if e.kind() == std::io::ErrorKind::AddrInUse && attempt < 50 => continue,
+            Err(e) => return Err(format!("bind client {from}: {e}")),
+        }
+        let (client, server) = tokio::join!(sock.connect(laddr), tokio::time::timeout(Duration::from_secs(5), listener.accept()));
+        match (client, server) {
+            (Ok(c), Ok(Ok((s, _)))) => break (c, s),
+            (Err(e), _) if e.kind() == std::io::ErrorKind::AddrInUse && attempt < 50 => continue,
+            (Err(e), _) => return Err(format!("connect: {e}")),
+            (_, Ok(Err(e))) => return Err(format!("accept: {e}")),
+            (_, Err(_)) => return Err("accept: timed out".into()),
+        }
+    };
     let _ = client.set_nodelay(true);
     let _ = server.set_nodelay(true);
     // close with RST (no TIME_WAIT on the harness side); the daemon sees an I/O drop either way
